@@ -38,6 +38,7 @@ type c15Svc struct {
 	Secrets  []string          `json:"secrets"`
 	Build    *[]string         `json:"build"`
 	Configs  []string          `json:"configs"`
+	Env      map[string]*string `json:"env"` // environment; null = listed without a value
 }
 
 type c15State struct {
@@ -48,6 +49,8 @@ type c15State struct {
 	Volumes  map[string]string `json:"volumes"`
 	Secrets  map[string]string `json:"secrets"`
 	Configs  map[string]string `json:"configs"`
+	// Project.Environment: what WithServicesEnabled resolves unset service variables against
+	Environment map[string]string `json:"environment"`
 }
 
 type c15Op struct {
@@ -110,11 +113,25 @@ func c15BuildSvc(name string, s c15Svc) types.ServiceConfig {
 	for _, x := range s.Configs {
 		sc.Configs = append(sc.Configs, types.ServiceConfigObjConfig{Source: x})
 	}
+	if len(s.Env) > 0 {
+		sc.Environment = types.MappingWithEquals{}
+		for k, v := range s.Env {
+			if v == nil {
+				sc.Environment[k] = nil
+			} else {
+				x := *v
+				sc.Environment[k] = &x
+			}
+		}
+	}
 	return sc
 }
 
 func c15Build(st c15State) *types.Project {
 	p := &types.Project{Name: "c15", WorkingDir: "/w", Services: types.Services{}, Environment: types.Mapping{}}
+	for k, v := range st.Environment {
+		p.Environment[k] = v
+	}
 	for k, s := range st.Services {
 		p.Services[k] = c15BuildSvc(k, s)
 	}
@@ -172,13 +189,22 @@ func c15ExtractSvc(sc types.ServiceConfig) c15Svc {
 	for _, x := range sc.Configs {
 		s.Configs = append(s.Configs, x.Source)
 	}
+	s.Env = map[string]*string{}
+	for k, v := range sc.Environment {
+		if v == nil {
+			s.Env[k] = nil
+		} else {
+			x := *v
+			s.Env[k] = &x
+		}
+	}
 	return s
 }
 
 // c15Extract is the observation: Services, DisabledServices, Profiles, depends_on and the top-level resources.
 func c15Extract(p *types.Project) c15State {
 	st := c15State{Services: map[string]c15Svc{}, Disabled: map[string]c15Svc{}, Profiles: nn(append([]string{}, p.Profiles...)),
-		Networks: map[string]string{}, Volumes: map[string]string{}, Secrets: map[string]string{}, Configs: map[string]string{}}
+		Networks: map[string]string{}, Volumes: map[string]string{}, Secrets: map[string]string{}, Configs: map[string]string{}, Environment: map[string]string{}}
 	for k, s := range p.Services {
 		st.Services[k] = c15ExtractSvc(s)
 	}
@@ -196,6 +222,9 @@ func c15Extract(p *types.Project) c15State {
 	}
 	for k, v := range p.Configs {
 		st.Configs[k] = v.Name
+	}
+	for k, v := range p.Environment {
+		st.Environment[k] = v
 	}
 	return st
 }
